@@ -37,7 +37,9 @@ def run_buffer_reuse(rs, ctx, l, p):
     D1 = gen.gen_batch(rs, cfg, cfg["arms"], n, nf, distinct_rows=6)
     # the decisions buffer must be wide enough for every label of both data sets (fixed-width numpy strings)
     bd, br = np.asarray(D0["d"], dtype=np.asarray(list(D0["d"]) + list(D1["d"])).dtype), np.asarray(D0["r"], dtype=float)
-    bX = np.ascontiguousarray(np.asarray(D0["X"], dtype=float)) if D0["X"] is not None else None
+    # the pre-allocated context buffer may be an integer or single-precision array (the grid values fit)
+    bdt = gen.pick(rs, [float, float, np.int64, np.float32, np.int16, np.uint8])
+    bX = np.ascontiguousarray(np.asarray(D0["X"], dtype=float).astype(bdt)) if D0["X"] is not None else None
     M = gen.build(cfg)
     sh = gen.Shadow(cfg, nf)
     sh.fitted, sh.rows = True, n
@@ -49,11 +51,12 @@ def run_buffer_reuse(rs, ctx, l, p):
         bd[:] = np.asarray(D1["d"])
         br[:] = np.asarray(D1["r"], dtype=float)
         if bX is not None:
-            bX[:] = np.asarray(D1["X"], dtype=float)
+            bX[:] = np.asarray(D1["X"], dtype=float).astype(bX.dtype)
         F = gen.build(cfg)
         rngs.graft(M, F)
         M.fit(bd, br, bX) if bX is not None else M.fit(bd, br)
-        gen.apply_op(F, dict(D1, op="fit"))
+        F.fit(np.asarray(D1["d"]), np.asarray(D1["r"], dtype=float), np.asarray(D1["X"], dtype=float).astype(bX.dtype)) if bX is not None \
+            else gen.apply_op(F, dict(D1, op="fit"))
     except Exception as ex:  # noqa: BLE001
         ctx.violation("%s: refit from re-used buffers raised %s: %s" % (gen.cfg_sig(cfg), type(ex).__name__, str(ex)[:80]), wit)
         return
